@@ -495,7 +495,9 @@ func predPipe(c Case) (r Result) {
 // root-evaluated contexts for referential transparency
 var rootCtx = []string{"%s", "%s | [@, @]", "%s || `0`", "`[]` || %s", "%s && `1`", "[%s, @]", "{k: %s, j: a}", "not_null(%s, `1`)", "to_array(%s)",
 	"%s.a", "%s[0]", "%s[*].a", "!%s", "%s == a", "a != %s", "(%s)", "%s[]", "%s[?@]", "%s[1:]", "type(%s)", "[%s][0]", "%s.*", "length(to_array(%s))",
-	"sort_by(to_array(%s), &to_string(@))", "[a, %s].b", "merge({x: %s}, {y: %s})"}
+	"sort_by(to_array(%s), &to_string(@))", "[a, %s].b", "merge({x: %s}, {y: %s})",
+	// a repeated key: whichever member wins, the rule cannot depend on how a member is written
+	"{k: %s, k: a}", "{k: a, k: %s}", "{k: %s, k: `1`}", "{k: `1`, k: %s}", "{k: %s, j: a, k: b}.k"}
 
 // predSubst: Search(C[S], d) == Search(C[literal(Search(S, d))], d); Extra = {ctx}.
 func predSubst(c Case) (r Result) {
